@@ -1454,9 +1454,18 @@ def _graph_origin(ctx: Ctx, f: FuncInfo, a: ast.AST, depth: int = 0) -> str:
         q = _callee_of(ctx, f, a)
         if q is not None and q in _setup_filter_funcs(ctx):
             return "setup-only"
+        if _is_setup_restriction(ctx, f, a):
+            return "setup-only"
         if a.func.attr == "_pre_setup":
             return "unfiltered _pre_setup"
     if isinstance(a, ast.Name):
+        # filtered down to the setup nodes in this very function (a filter written, or expanded, in place)
+        if _filters_in_place(f, a.id):
+            return "setup-only"
+        cp = [n for n in ctx.reaching_defs(f, a.id, a) if isinstance(n, ast.Assign)]
+        if cp and depth < 3 and all(isinstance(n.value, ast.Name) and isinstance(n.targets[0], ast.Name) for n in cp) \
+                and all(_filters_in_place(f, n.value.id) for n in cp):
+            return "setup-only"
         params = [x.arg for x in f.node.args.posonlyargs + f.node.args.args + f.node.args.kwonlyargs]
         asg = [n for n in ctx.reaching_defs(f, a.id, a) if isinstance(n, ast.Assign)]
         if asg and depth < 3:
@@ -1536,6 +1545,36 @@ def _filters_in_place(fn: FuncInfo, gname: str) -> bool:
     return False
 
 
+def _is_setup_restriction(ctx: Ctx, fn: FuncInfo, call: ast.AST) -> bool:
+    """`G.keep(<...>.setup_nodes)` where keep(self, kept) removes from self, in place, every node that is not in `kept` and returns self."""
+    if not (isinstance(call, ast.Call) and isinstance(call.func, ast.Attribute) and len(call.args) == 1 and not call.keywords):
+        return False
+    a = call.args[0]
+    core = a.args[0] if isinstance(a, ast.Call) and dotted(a.func) in ("set", "frozenset", "list", "tuple") and len(a.args) == 1 else a
+    if not (isinstance(core, ast.Attribute) and core.attr == "setup_nodes"):
+        return False
+    g = ctx.P.funcs.get(_callee_of(ctx, fn, call) or "")
+    if g is None:
+        # receiver of unknown type (a deep copy, a local): the method of that name of the graph class
+        g = ctx.P.classes[graph_q(ctx)].methods.get(call.func.attr)
+    if g is None or g.cls is None or len(g.node.args.args) != 2:
+        return False
+    me, kept = g.node.args.args[0].arg, g.node.args.args[1].arg
+    rets = [n for n in iter_own_nodes(g.node) if isinstance(n, ast.Return) and n.value is not None]
+    if len(rets) != 1 or dotted(rets[0].value) != me:
+        return False
+    for n in iter_own_nodes(g.node):
+        if isinstance(n, ast.Call) and isinstance(n.func, ast.Attribute) and n.func.attr == "remove_nodes_from" and dotted(n.func.value) == me and n.args:
+            c = n.args[0]
+            if isinstance(c, (ast.ListComp, ast.SetComp, ast.GeneratorExp)) and len(c.generators) == 1 and len(c.generators[0].ifs) == 1 \
+                    and dotted(c.generators[0].iter) in (me, f"{me}.nodes") :
+                t = c.generators[0].ifs[0]
+                if isinstance(t, ast.Compare) and len(t.ops) == 1 and isinstance(t.ops[0], ast.NotIn) and dotted(t.comparators[0]) == kept \
+                        and dotted(t.left) == dotted(c.generators[0].target) == dotted(c.elt):
+                    return True
+    return False
+
+
 def _setup_filter_funcs(ctx: Ctx) -> Set[str]:
     """Functions whose (single) returned graph holds setup nodes only: they filter it in place, or return the result of one that does."""
     def build():
@@ -1557,7 +1596,7 @@ def _setup_filter_funcs(ctx: Ctx) -> Set[str]:
                         asg = [n for n in ctx.reaching_defs(fn, v.id, v) if isinstance(n, ast.Assign)]
                         ok = bool(asg) and all(isinstance(n.value, ast.Call) and _callee_of(ctx, fn, n.value) in out for n in asg)
                 elif isinstance(v, ast.Call):
-                    ok = _callee_of(ctx, fn, v) in out
+                    ok = _callee_of(ctx, fn, v) in out or _is_setup_restriction(ctx, fn, v)
                 if ok:
                     out.add(fn.qualname)
                     changed = True
